@@ -514,6 +514,28 @@ static Token *paste(Token *lhs, Token *rhs) {
   return tok;
 }
 
+// An object-like macro has no parameters, but a `##` in its
+// replacement list still concatenates the two adjacent tokens.
+static Token *paste_objlike(Token *tok) {
+  Token head = {};
+  Token *cur = &head;
+
+  for (; tok->kind != TK_EOF; tok = tok->next) {
+    if (equal(tok, "##") && cur != &head && tok->next->kind != TK_EOF) {
+      bool at_bol = cur->at_bol, has_space = cur->has_space;
+      *cur = *paste(cur, tok->next);
+      cur->at_bol = at_bol;
+      cur->has_space = has_space;
+      tok = tok->next;
+      continue;
+    }
+    cur = cur->next = copy_token(tok);
+  }
+
+  cur->next = tok;
+  return head.next;
+}
+
 static bool has_varargs(MacroArg *args) {
   for (MacroArg *ap = args; ap; ap = ap->next)
     if (ap->is_va_args)
@@ -686,7 +708,7 @@ static bool expand_macro(Token **rest, Token *tok) {
   // Object-like macro application
   if (m->is_objlike) {
     Hideset *hs = hideset_union(tok->hideset, new_hideset(m->name));
-    Token *body = add_hideset(m->body, hs);
+    Token *body = add_hideset(paste_objlike(m->body), hs);
     for (Token *t = body; t->kind != TK_EOF; t = t->next)
       t->origin = tok;
     *rest = append(body, tok->next);
